@@ -4,7 +4,7 @@
    The model is of the REPAIRED code (fix: commits listed in known_findings.json); definitions
    with an `orig` flag keep the unchanged behaviour for the …_refuted witnesses.
    ext = IPv6HopByHop / IPv6Destination; ip6 = IPv6. *)
-From GP Require Import Base N6Lib Lip6Model Lip6Proofs Lip6Rt Lip6Rt2 Lip6Rt3 Lip6Idem Lip6xModel Lip6xProofs.
+From GP Require Import Base N6Lib Lip6Model Lip6Proofs Lip6Rt Lip6Rt2 Lip6Rt3 Lip6Rt4 Lip6Idem Lip6xModel Lip6xProofs.
 Open Scope Z_scope.
 
 (* ------------------------------------------------------------------ C19 *)
@@ -160,8 +160,8 @@ Proof. reflexivity. Qed.
 (* IPv6: the full statement (every in-range layer value with or without hop-by-hop header, every
    payload incl. jumbograms) is kept as a Definition and is NOT proved as such.  Proved below
    (…_partial): the fixed header alone (payload of 1..65535 octets) and the hop-by-hop path without
-   jumbogram.  The jumbogram path of the round trip (payload > 65535) is covered by the
-   extension-header theorems plus the rt/nrt correspondence cases (tested, not proved end to end).  Three clauses of the full statement are false for the repaired code and are recorded
+   jumbogram, and the jumbogram path when FixLengths creates the hop-by-hop header.  Left to the
+   rt/nrt correspondence cases (tested only): a jumbogram whose layer already has a hop-by-hop header.  Three clauses of the full statement are false for the repaired code and are recorded
    as known findings (Length 0 for an empty payload is rejected; a jumbogram's Payload includes
    the hop-by-hop header; hop-by-hop header + payload of 65528..65535 octets is not serializable). *)
 Definition C06_ip6_roundtrip_statement : Prop :=
@@ -200,6 +200,26 @@ Example C06_ip6_hbh_nonvacuous :
             (Some (mkExt 17 0 0 [mkTlv 5 0 0 [1; 2] 0 0; mkTlv 7 0 0 [1; 2; 3; 4] 4 2] [] [])) [] []) = true /\
   ext_size (mkExt 17 0 0 [mkTlv 5 0 0 [1; 2] 0 0; mkTlv 7 0 0 [1; 2; 3; 4] 4 2] [] []) = 16.
 Proof. split; reflexivity. Qed.
+
+(* ... and the jumbogram path for a layer without hop-by-hop header (FixLengths creates the header
+   with the jumbo option): payload of 65536 .. 2^32-9 octets.  Decoding succeeds without truncation
+   flag, Length is 0, the next header moved into the created hop-by-hop header, whose only option is
+   the jumbo option carrying payload + 8, and all fields agree with the layer as FixLengths left it.
+   The payload comes back on the attached hop-by-hop layer; IPv6.Payload itself is the hop-by-hop
+   header followed by the payload — the known finding ip6-jumbo-payload-includes-hbh, stated here
+   exactly.  (A jumbogram whose layer already carries a hop-by-hop header is tested only.) *)
+Theorem C06_ip6_roundtrip_jumbo_partial : forall l payload junk, ip6_okb l = true -> p_hbh l = None -> bytes_ok payload ->
+  65535 < n6_len payload < 4294967296 - 8 ->
+  exists bytes l2 h2 jl,
+    ip6_roundtrip l payload junk = (Ok bytes, (l2, Ok tt, false)) /\
+    jl = be_bytes 4 (n6_len payload + 8) /\
+    p_payload l2 = [p_next l; 0; JUMBO; 4] ++ jl ++ payload /\
+    p_hbh l2 = Some h2 /\ e_payload h2 = payload /\ e_next h2 = p_next l /\
+    tlv_nonpad (e_opts h2) = [(JUMBO, jl)] /\
+    p_length l2 = 0 /\ p_next l2 = 0 /\
+    ip6_fields l2 = ip6_fields (snd (ip6_serialize l payload true true junk)).
+Proof. exact ip6_roundtrip_jumbo. Qed.
+Print Assumptions C06_ip6_roundtrip_jumbo_partial.
 
 Example C06_ip6_partial_nonvacuous :
   ip6_okb (mkIp6 6 184 703710 0 17 64 (repeat 254 16) (repeat 1 16) None [] []) = true.
